@@ -30,6 +30,8 @@ type SCTP struct {
 	eof    bool
 	rerr   error
 	Closed bool
+	WriteBlocked bool // the peer has stopped reading: SCTPWrite blocks
+	InWrite      int  // writes currently blocked inside the transport
 	DeadReads int // reads answered with the terminal condition (EOF / read error)
 	NClose int
 	Writes []SCTPWrite
@@ -106,6 +108,16 @@ func (s *SCTP) SCTPWrite(b []byte, info *sctp.SndRcvInfo) (int, error) {
 	vs.BlockObj("sctp.write:"+s.Name, s, func() bool { return true })
 	if s.Closed {
 		return 0, ErrClosed
+	}
+	if s.WriteBlocked {
+		// the peer has stopped reading: the send blocks until it reads again or the association is closed
+		s.InWrite++
+		vs.Touch(s, "write-blocked")
+		vs.BlockObj("sctp.write.blocked:"+s.Name, s, func() bool { return !s.WriteBlocked || s.Closed })
+		s.InWrite--
+		if s.Closed {
+			return 0, ErrClosed
+		}
 	}
 	w := SCTPWrite{Data: append([]byte{}, b...)}
 	if info != nil {
